@@ -6,6 +6,7 @@ import (
 	"context"
 	"encoding/binary"
 	"fmt"
+	"github.com/mr-tron/base58/base58"
 	"io"
 	"net"
 	"runtime"
@@ -450,9 +451,22 @@ func Seeds(target string) [][]byte {
 		}
 	case "peer-id":
 		valid = append(valid, []byte(gen.PeerID(1)), []byte(gen.PeerID(1).String()), []byte{0x12, 0x20}, []byte{0x00, 0x24, 0x08, 0x01, 0x12, 0x20})
+		// identity ids around key messages with unknown / huge / negative-as-int32 key types
+		rawPub, _ := k.GetPublic().Raw()
+		for _, kt := range []uint64{0, 2, 0x7fffffff, 0x80000000, 0xffffffff, ^uint64(0)} {
+			km := append(append([]byte{0x08}, uv(kt)...), append([]byte{0x12, 0x20}, rawPub...)...)
+			id := append([]byte{0x00, byte(len(km))}, km...)
+			valid = append(valid, id, []byte(base58.Encode(id)))
+		}
 	case "floodsub-stream":
 		valid = append(valid, floodsubStreamSeeds()...)
 	case "keys":
+		rawPub, _ := k.GetPublic().Raw()
+		rawPriv, _ := k.Raw()
+		for _, kt := range []uint64{0, 2, 0x7fffffff, 0x80000000, 0xffffffff, ^uint64(0)} {
+			valid = append(valid, append(append([]byte{0x08}, uv(kt)...), append([]byte{0x12, 0x20}, rawPub...)...),
+				append(append([]byte{0x08}, uv(kt)...), append([]byte{0x12, 0x40}, rawPriv...)...))
+		}
 		pb, _ := crypto.MarshalPublicKey(k.GetPublic())
 		kb, _ := crypto.MarshalPrivateKey(k)
 		pp, _ := keypem.MarshalPrivKeyPem(k)
